@@ -36,6 +36,10 @@ def x_obligations(tier):
     for pre, n, suf in [("m/p/x/it/01/s/", 1, ""), ("m/p/x/", 1, "/01/p/i")]:
         o.append(Obl(f"C03-walk[miniB,{pre!r}+{n}+{suf!r}]", M, "walk", env={"VF_CONF": "miniB", "VF_PRE": pre, "VF_N": str(n), "VF_SUF": suf}, timeout=170 if tier == "quick" else 600,
                      family="C03-walk", bound=f"miniB: Sid({pre!r}+t+{suf!r}), every t with len(t) <= {n}"))
+    # navigation answers the same after a caller edited a returned fields dictionary or removed a key with get_with(k=None) (C13's call alphabet, caches on)
+    for i in (29, 34):
+        o.append(Obl(f"C03-history[after call#{i}]", "xhair.obl.c13", "pair", env={"VF_IDX": str(i), "VF_FIRST": "local"}, timeout=170 if tier == "quick" else 600, family="C03-history",
+                     bound=f"history (call #{i}: fields-dictionary edit / get_with(ext=None), call j) for every j of the call alphabet of C13, caches on"))
     o.append(Obl("C03-reach", M, "reach", env={"VF_N": "3", "VF_PRE": "h/a/"}, timeout=150, expect="refute", family="C03-twin"))
     return o
 
